@@ -16,12 +16,18 @@ import (
 // mix and arbitrary 1-byte tx lists (equal lists possible), an arbitrary set
 // of blobs really on the DA layer (each marked in the caches with the DA
 // height it is at), executor finalisation and metadata writes may fail.
-func ZZ_C07_step() { zzC07Step(false) }
+func ZZ_C07_step() { zzC07Step(false, false) }
+
+// ZZ_C07_clean_restart: the same step, but between the marking of the blobs
+// and the wake-up the node is stopped cleanly (the real SaveCache) and started
+// again (real NewManager, which reloads the caches and the persisted height):
+// the restarted node reports the included prefix after one wake-up.
+func ZZ_C07_clean_restart() { zzC07Step(false, true) }
 
 // ZZ_C07_faults: the same step with one block and executor / metadata-write failures.
-func ZZ_C07_faults() { zzC07Step(true) }
+func ZZ_C07_faults() { zzC07Step(true, false) }
 
-func zzC07Step(faults bool) {
+func zzC07Step(faults, cleanRestart bool) {
 	zzsym.FreezeClock()
 	var I, D uint64
 	switch zzsym.Pick("start", 3) {
@@ -43,7 +49,8 @@ func zzC07Step(faults bool) {
 	}
 	e.zzChain(D, k, ne)
 	H := D + uint64(k)
-	m := e.zzManager(types.State{ChainID: e.chainID, InitialHeight: I, LastBlockHeight: H})
+	st := types.State{ChainID: e.chainID, InitialHeight: I, LastBlockHeight: H}
+	m := e.zzManager(st)
 	m.daIncludedHeight.Store(D)
 	if D > 0 {
 		e.store.meta["d"] = zzLE(D)
@@ -77,6 +84,18 @@ func zzC07Step(faults bool) {
 		if zzsym.Bool("metaWriteFails") {
 			e.store.failMeta = "d"
 		}
+	}
+	if cleanRestart {
+		zzsym.Assert(m.SaveCache() == nil, "clean-stop-saves-the-caches")
+		e.store.state, e.store.hasState = st, true
+		e.store = e.store.reopen()
+		m2, err := NewManager(context.Background(), e.signer, e.cfg, e.gen, e.store, e.exec, e.seq, nil, m0logger(), nil, nil, e.hb, e.db, NopMetrics(), 1, 1, DefaultManagerOptions())
+		zzsym.Assert(err == nil, "restart-ok")
+		if err != nil {
+			return
+		}
+		zzsym.Assert(m2.GetDAIncludedHeight() == D, "restart-reports-persisted-height")
+		m = m2
 	}
 	ctx, cancel := context.WithCancel(context.Background())
 	errCh := make(chan error, 4)
